@@ -1,4 +1,5 @@
 import SedVerif.Proofs.Dist
+import SedVerif.Properties.C03
 import Mathlib.Data.Rat.Floor
 /-!
 # C02 — distance-dependent fits pick the grid optimum of correctly scaled model fluxes
@@ -159,30 +160,84 @@ theorem C02_argmin_first (big : K) (ln1m : K → K) (lo hi : K) (logd : List K)
   have : pss[j] = before[j] := by simp only [hpss]; rw [List.getElem_append_left hj]
   rw [this]; exact List.getElem_mem hj
 
-/-- **C02 (glue).**  Whenever the distance-dependent fit of a model returns, its result is `fit3` on
-    one band list per trial distance with `logd = log10(distances)`, so the hypotheses
-    `logd.length = pss.length` (and `pss ≠ []` for a non-empty grid) of `C02_fit` hold. -/
+/-- **C02 (glue).**  Whenever the distance-dependent fit of a model returns, its result is `fit3` on one
+    band list per trial distance with `logd = log10(distances)` (so `logd.length = pss.length`, and
+    `pss ≠ []` for a non-empty grid: the hypotheses of `C02_fit`), and the band lists are exactly what the
+    property says: at trial distance `i` there are fluxes `fl`, one per band, with
+    `fl[j] = fluxAt (table j) θ_j (1000·d_i) d_i` (the right-hand sides of `C02_flux`), the band list is
+    `mkPts lobs (fl.map lg) ks`, and its `j`-th point has residual `log F_obs,j − lg fl[j]`, extinction
+    coefficient `ks[j]`, scale pattern −2, and weight / flag / log-error of source band `j`. -/
 theorem C02_model (big : K) (ln1m lg : K → K) (lo hi : K) (lobs : List (LogObs K)) (ks : List K)
     (tabs : List (BandTab K)) (dists : List K) (res : K × K × K × Nat)
     (h : fit3Model big ln1m lg lo hi lobs ks tabs dists = .ok res) :
     ∃ pss, modelPss lg lobs ks tabs dists = .ok pss ∧ pss.length = dists.length ∧
-      (dists.map lg).length = pss.length ∧ res = fit3 big ln1m lo hi (dists.map lg) pss := by
+      (dists.map lg).length = pss.length ∧ res = fit3 big ln1m lo hi (dists.map lg) pss ∧
+      ∀ (i : Nat) (hi : i < dists.length) (hi' : i < pss.length),
+        ∃ fl : List K, fl.length = tabs.length ∧ pss[i] = mkPts lobs (fl.map lg) ks ∧
+          (∀ (j : Nat) (hj : j < tabs.length) (hj' : j < fl.length),
+            fluxAt tabs[j].aps tabs[j].row tabs[j].theta (1000 * dists[i]) dists[i] = .ok fl[j]) ∧
+          (∀ (j : Nat) (h1 : j < lobs.length) (h2 : j < fl.length) (h3 : j < ks.length),
+            pss[i][j]? = some { r := lobs[j].lf - lg fl[j], k := ks[j], q := scLaw, w := lobs[j].w,
+                                flag := lobs[j].flag, e := lobs[j].le }) := by
   unfold fit3Model at h
-  cases hp : modelPss lg lobs ks tabs dists with
-  | error e => rw [hp] at h; simp [Except.map] at h
-  | ok pss =>
-    rw [hp] at h
-    simp only [Except.map, Except.ok.injEq] at h
-    have hl : pss.length = dists.length := by
-      unfold modelPss at hp
-      cases hq : modelLogFluxes lg tabs dists with
-      | error e => rw [hq] at hp; simp [Except.map] at hp
-      | ok lfs =>
-        rw [hq] at hp
-        simp only [Except.map, Except.ok.injEq] at hp
-        have := seqE_length _ _ hq
-        rw [← hp]; simpa using this
-    exact ⟨pss, rfl, hl, by simp [hl], h.symm⟩
+  obtain ⟨pss, hp, hres⟩ := exceptMap_ok _ _ _ h
+  unfold modelPss at hp
+  obtain ⟨lfs, hq, hpss⟩ := exceptMap_ok _ _ _ hp
+  unfold modelLogFluxes at hq
+  have hll : lfs.length = dists.length := by simpa using seqE_length _ _ hq
+  have hl : pss.length = dists.length := by rw [hpss]; simpa using hll
+  refine ⟨pss, by rw [hpss]; unfold modelPss modelLogFluxes; rw [hq]; rfl, hl, by simp [hl], hres, ?_⟩
+  intro i hi hi'
+  have hget := seqE_getElem _ _ hq i (by simpa using hi) (by rw [hll]; exact hi)
+  simp only [List.getElem_map] at hget
+  obtain ⟨fl, hfl, hlf⟩ := exceptMap_ok _ _ _ hget
+  unfold modelFluxes at hfl
+  have hfll : fl.length = tabs.length := by simpa using seqE_length _ _ hfl
+  have hpi : pss[i] = mkPts lobs (fl.map lg) ks := by
+    simp only [hpss, List.getElem_map, hlf]
+  refine ⟨fl, hfll, hpi, ?_, ?_⟩
+  · intro j hj hj'
+    have := seqE_getElem _ _ hfl j (by simpa using hj) hj'
+    simpa [thousandK_eq] using this
+  · intro j h1 h2 h3
+    rw [hpi, mkPts_getElem? lobs (fl.map lg) ks j h1 (by simpa using h2) h3]
+    simp
+
+/-- **C02 (source).**  The property's wording — at least one fitted band (flag 1 with non-zero flux and
+    error, or flag 4 with non-zero error; `ln 10 ≠ 0`) whose extinction coefficient is non-zero, and a model
+    flux for it — gives the two algebraic hypotheses of `C02_fit` for the band list `obsPts … = mkPts
+    (source bands through `logTransform`) (model log fluxes) ks` that `C02_model` exhibits at every trial
+    distance: all weights are `≥ 0` and `Σ k²w > 0`. -/
+theorem C02_source (lg : K → K) (ln10 : K) (hln : ln10 ≠ 0) (os : List (Obs K)) (ks mf : List K)
+    (j : Nat) (h1 : j < os.length) (h2 : j < mf.length) (h3 : j < ks.length)
+    (hfit : (os[j].flag = 1 ∧ os[j].flux ≠ 0 ∧ os[j].err ≠ 0) ∨ (os[j].flag = 4 ∧ os[j].err ≠ 0))
+    (hk : ks[j] ≠ 0) :
+    (∀ p ∈ obsPts lg ln10 os ks mf, 0 ≤ p.w) ∧
+    0 < sumBy (fun p => p.k * p.k * p.w) (obsPts lg ln10 os ks mf) := by
+  have hwf := (C03_weights lg ln10).2 os ks mf
+  have hw : ∀ p ∈ obsPts lg ln10 os ks mf, 0 ≤ p.w := fun p hp => (hwf p hp).1
+  refine ⟨hw, ?_⟩
+  have hget := mkPts_getElem? (os.map (logTransform lg ln10)) mf ks j (by simpa using h1) h2 h3
+  have hmem := List.mem_of_getElem? hget
+  refine sumBy_pos_of_mem _ _ (fun p hp => mul_nonneg (mul_self_nonneg _) (hw p hp)) _ hmem ?_
+  simp only [List.getElem_map]
+  exact mul_pos (mul_self_pos.mpr hk) (C03_weights_pos lg ln10 hln os[j] hfit)
+
+/-- **C02 (grid ends).**  With `10 ** log10 x = x` and `log10` increasing on positive numbers, for
+    `0 < dmin < dmax` the list of trial distances has the grid's length, starts at `dmin` and ends at `dmax`. -/
+theorem C02_grid_ends (lg exp10 : K → K) (hexp : ∀ x, 0 < x → exp10 (lg x) = x)
+    (hmono : ∀ x y, 0 < x → x < y → lg x < lg y)
+    (ceilK : K → ℕ) (hc1 : ∀ x, x ≤ (ceilK x : K)) (hc2 : ∀ x (m : ℕ), x ≤ (m : K) → ceilK x ≤ m)
+    (dlo dhi step : K) (h0 : 0 < dlo) (hlt : dlo < dhi) (hs : 0 < step) :
+    (distancesKpc lg exp10 ceilK dlo dhi step).length = ceilK (1 + (lg dhi - lg dlo) / step) ∧
+    (distancesKpc lg exp10 ceilK dlo dhi step)[0]? = some dlo ∧
+    (distancesKpc lg exp10 ceilK dlo dhi step)[ceilK (1 + (lg dhi - lg dlo) / step) - 1]? = some dhi := by
+  obtain ⟨_, hlen, _, hfirst, hlast, _, _⟩ :=
+    C02_grid ceilK hc1 hc2 (lg dlo) (lg dhi) step (hmono dlo dhi h0 hlt) hs
+  rw [(C02_grid_degenerate lg exp10 ceilK dlo dhi step).2 (ne_of_lt hlt)]
+  refine ⟨by simpa using hlen, ?_, ?_⟩
+  · rw [List.getElem?_map, hfirst]; simp [hexp dlo h0]
+  · rw [List.getElem?_map, hlast]; simp [hexp dhi (lt_trans h0 hlt)]
 
 /-! ### Non-vacuity -/
 
